@@ -128,6 +128,19 @@ def api_value(cls, rng):
     nullable = cls.__nullable_dict__() or {}
     if nullable and rng.random() < 0.15:
         return rng.choice(list(nullable.values()))
+    if rng.random() < 0.12:
+        # a value of a neighbouring Python type (the column's own validation refuses it at present, and the assignment is
+        # then taken back; should validation ever let it through, the writer accepts a value its text does not denote)
+        if issubclass(cls, CT.FloatColumn):
+            return rng.choice([1, 0, 7, 10 ** 23])
+        if issubclass(cls, CT.IntegerColumn):
+            return rng.choice([7.0, 2.5, True])
+        if issubclass(cls, CT.BooleanColumn):
+            return rng.choice([1, 0, "True"])
+        if issubclass(cls, CT.UUIDColumn):
+            return "12345678-1234-5678-1234-567812345678"
+        if issubclass(cls, CT.EnumColumn):
+            return str(rng.choice(list(cls.__enum_class__())).value)
     if issubclass(cls, CT.SequenceOfValuesColumn):
         ecls = cls.__column_class__()
         n = rng.choice([0, 1, 1, 2, 3])
